@@ -11,11 +11,11 @@ CHECKS["C01"] = dict(
     src="C01.cpp", level="model_checking",
     entries=[
         dict(name="harness_c01_pairs", quick={}, thorough={}),
-        dict(name="harness_c01_cross", quick={}, thorough={}),
+        dict(name="harness_c01_cross", quick={}, thorough={"allpairs": 1, "_wall": 1700}),
     ],
     anchors=["SymEngine::RealDouble::__hash__", "SymEngine::Integer::__hash__", "SymEngine::Rational::__hash__", "SymEngine::Add::__hash__", "SymEngine::Mul::__hash__",
              "SymEngine::MSymEnginePoly"],
-    bounds="25 expression templates (all number kinds, Interval with an infinite end, x + k and k*x with k of any finite number kind, Symbol, Mul, Add in two construction orders, Pow, Sin, FiniteSet, Interval, Lt, UIntPoly, URatPoly, MIntPoly over {x,y} and constant MIntPoly over a symbolic variable set, ImmutableDenseMatrix); integer slots in [-3,3] (bit-vector mode), rational denominators 1..3 (unnormalised inputs through from_two_ints), doubles: all 2^64 bit patterns; all same-template pairs and all cross-template pairs",
+    bounds="25 expression templates (all number kinds, Interval with an infinite end, x + k and k*x with k of any finite number kind, Symbol, Mul, Add in two construction orders, Pow, Sin, FiniteSet, Interval, Lt, UIntPoly, URatPoly, MIntPoly over {x,y} and constant MIntPoly over a symbolic variable set, ImmutableDenseMatrix); integer slots in [-3,3] (bit-vector mode), rational denominators 1..3 (unnormalised inputs through from_two_ints), doubles: all 2^64 bit patterns; all same-template pairs; cross-template pairs: the 16 pairs that can produce objects of the same class (quick), all pairs (thorough)",
     outside=["expressions with more than 3 operators", "multi-limb integers", "slot values beyond [-3,3]"],
 )
 
